@@ -55,6 +55,14 @@ def target_names(t):
         yield from target_names(t.value)
 
 
+def _subscript_keys(expr):
+    out = []
+    while isinstance(expr, ast.Subscript):
+        out.append(expr.slice)
+        expr = expr.value
+    return out
+
+
 def _through_attr(expr):
     """the access path from the root name passes an attribute (a.b[c])"""
     while isinstance(expr, (ast.Subscript, ast.Attribute, ast.Call)):
@@ -158,10 +166,13 @@ class FuncFlow:
             v = st.value
             self._collect_walrus(v, nid)
             if isinstance(v, ast.Call) and isinstance(v.func, ast.Attribute):
-                if v.func.attr in MUTATORS and isinstance(v.func.value, ast.Name):
-                    b = v.func.value.id
+                if v.func.attr in MUTATORS and not _through_attr(v.func.value):
+                    # x.append(v) / x[k].append(v): v (and k) flow into container x
+                    b = base_name(v.func.value)
                     if b:
-                        for arg in list(v.args) + [k.value for k in v.keywords]:
+                        vals = list(v.args) + [k.value for k in v.keywords]
+                        vals += _subscript_keys(v.func.value)
+                        for arg in vals:
                             self._add(Def(b, arg, nid, "mutate", strong=False))
         elif isinstance(st, ast.Delete):
             pass
@@ -186,6 +197,8 @@ class FuncFlow:
             b = base_name(t)
             if b:
                 self._add(Def(b, value, nid, "mutate", strong=False))
+                for kx in _subscript_keys(t):
+                    self._add(Def(b, kx, nid, "mutate", strong=False))
         elif isinstance(t, ast.Starred):
             self._bind_target(t.value, value, nid)
 
